@@ -4206,6 +4206,9 @@ func (data *Data) UpdateReplication(database string, rgId, masterId uint32, peer
 	if !ok {
 		return 0, errno.NewError(errno.DatabaseNotFound, database)
 	}
+	if int(rgId) >= len(rgs) {
+		return 0, fmt.Errorf("replica group %d of database %s not found", rgId, database)
+	}
 	rg := &rgs[rgId]
 	oldMasterPtID := rg.MasterPtID
 	rg.MasterPtID = masterId
